@@ -610,6 +610,54 @@ class _UnpackViaTemp(ast.NodeTransformer):
         return node
 
 
+def _internal_calls_by_keyword(sources: Sources) -> Optional[Sources]:
+    """every positional argument of a call that resolves to exactly one function / class of the package (plain
+    parameters) is passed by keyword instead -- the callee binds the same values"""
+    from . import engine
+    from .model import ClassInfo, FuncInfo, Program
+
+    prog = Program(None, sources=dict(sources))
+    ctx = engine.Context(prog)
+    res = ctx.res
+    out = dict(sources)
+    total = 0
+    for mod in prog.modules.values():
+        targets = {}
+        for fi in prog.functions.values():
+            if fi.module is not mod:
+                continue
+            for c in ast.walk(fi.node):
+                if isinstance(c, ast.Call) and getattr(c, "_sa_params", None) is not None:
+                    targets[(c.lineno, c.col_offset)] = list(c._sa_params)
+        try:
+            tree = ast.parse(sources[mod.relpath])
+        except (SyntaxError, KeyError):
+            continue
+        n = [0]
+
+        class T(ast.NodeTransformer):
+            def visit_Call(self, node):
+                self.generic_visit(node)
+                params = targets.get((node.lineno, node.col_offset))
+                if params is None or not node.args or any(isinstance(x, ast.Starred) for x in node.args) or len(node.args) > len(params):
+                    return node
+                given = {k.arg for k in node.keywords}
+                names = params[:len(node.args)]
+                if given & set(names) or None in given:
+                    return node
+                node.keywords = [ast.keyword(arg=nm, value=v) for nm, v in zip(names, node.args)] + list(node.keywords)
+                node.args = []
+                n[0] += 1
+                return node
+
+        T().visit(tree)
+        if n[0]:
+            ast.fix_missing_locations(tree)
+            out[mod.relpath] = ast.unparse(tree) + "\n"
+            total += n[0]
+    return out if total else None
+
+
 def global_benign_variants() -> List[Variant]:
     return [
         Variant("global-benign-none-tests-double-negation", "benign", _rewrite_all(_NoneDoubleNegation)),
@@ -623,4 +671,5 @@ def global_benign_variants() -> List[Variant]:
         Variant("global-benign-locals-renamed", "benign", _rewrite_all(_RenameLocals)),
         Variant("global-benign-return-via-temp", "benign", _rewrite_all(_ReturnViaTemp)),
         Variant("global-benign-unpack-via-temp", "benign", _rewrite_all(_UnpackViaTemp)),
+        Variant("global-benign-internal-calls-by-keyword", "benign", _internal_calls_by_keyword),
     ]
